@@ -142,8 +142,11 @@ def main(ctx, replay=None):
     nsamp = 0
     try:
         prev_d = None
+        forced_systems = ["tetragonal7", "trigonal7", "trigonal6"]
         for pn, (_, mode, has_table, with_sys, with_mass, ntv, has_density, rowrule, sample, stride, nrows_spec) in enumerate(picks):
-            system = str(rng.choice(["hexagonal", "cubic", "tetragonal6", "orthorhombic", "trigonal6"])) if with_sys else None
+            system = str(rng.choice(["hexagonal", "cubic", "tetragonal6", "orthorhombic", "trigonal6", "tetragonal7", "trigonal7"])) if with_sys else None
+            if with_sys and has_table and forced_systems:
+                system = forced_systems.pop(0)           # (the systems with a normal-shear coupling are present whatever the draw)
             sc = StaticCase(rng, exports, system)
             sc.exponent = bool(pn % 3 == 1)
             # every third invocation works on the files of the one before it, rewritten in place (same paths, other material, same process)
@@ -153,7 +156,7 @@ def main(ctx, replay=None):
             if with_sys:
                 # supply a sufficient subset only: the nine orthotropic ones that do not vanish plus what else is independent
                 supplied = sc.nonvan
-                dropped = [k for k in supplied if k in ((2, 2), (2, 3), (5, 5))] if system in ("hexagonal", "cubic", "tetragonal6", "trigonal6") else []
+                dropped = [k for k in supplied if k in ((2, 2), (2, 3), (5, 5))] if system in ("hexagonal", "cubic", "tetragonal6", "trigonal6", "tetragonal7", "trigonal7") else []
                 supplied = [k for k in supplied if k not in dropped]
             else:
                 supplied = sc.nonvan if rng.random() < 0.5 else list(ORTHO9)
